@@ -75,6 +75,8 @@ func (f *Frame) specSort(name string) (Sort, types.Type) {
 		return SStr, types.Typ[types.String]
 	case "Ref":
 		return SInt, nil
+	case "interface{}", "any", "Iface":
+		return SIface, types.NewInterfaceType(nil, nil)
 	case "[]byte":
 		return SSlice, types.NewSlice(types.Typ[types.Uint8])
 	}
@@ -340,6 +342,13 @@ func (f *Frame) evalBinary(x EBinary, c *evalCtx) Val {
 	case "==", "!=":
 		if os.Getenv("WV_DEBUG") != "" {
 			fmt.Fprintf(os.Stderr, "cmp %q:%s  %q:%s  %#v\n", l.T.S, l.T.Sort, r.T.S, r.T.Sort, x.L)
+		}
+		// an interior pointer (address of a field or element) is never nil
+		if l.LV != nil && l.T.S == "" && r.T.Sort == "nil" {
+			return boolVal(BoolLit(x.Op == "!="))
+		}
+		if r.LV != nil && r.T.S == "" && l.T.Sort == "nil" {
+			return boolVal(BoolLit(x.Op == "!="))
 		}
 		l, r = f.unifyNil(l, r)
 		var eq Term
@@ -641,6 +650,11 @@ func (f *Frame) evalCall(x ECall, c *evalCtx) Val {
 			args = append(args, f.eval(a, c))
 		}
 		return f.applySpec(d, args, c)
+	}
+	if i := strings.Index(x.Fn, "."); i > 0 {
+		if _, ok := c.env[x.Fn[:i]]; ok {
+			return f.eval(EMethod{EIdent{x.Fn[:i]}, x.Fn[i+1:], x.Args}, c)
+		}
 	}
 	f.fail("unknown function %q in contract", x.Fn)
 	return Val{}
